@@ -746,8 +746,17 @@ asn_double2REAL(REAL_t *st, double dbl_value) {
 		}
     }
 
-	/* Remove parts of the exponent, leave mantissa and explicit 1. */
-	dscr[0] = 0x10 | (dscr[0] & 0x0f);
+	if(expval < -1022) {
+		/*
+		 * Subnormal: the exponent field is zero, there is no implicit 1,
+		 * and the scale is the one of the smallest normal number.
+		 */
+		dscr[0] &= 0x0f;
+		expval = -1022;
+	} else {
+		/* Remove parts of the exponent, leave mantissa and explicit 1. */
+		dscr[0] = 0x10 | (dscr[0] & 0x0f);
+	}
 
 	/* Adjust exponent in a very unobvious way */
 	expval -= 8 * ((mstop - dscr) + 1) - 4;
